@@ -1014,5 +1014,13 @@ def generate(src_dir):
     out = emit.HEADER.format(src=str(src_dir))
     out += "From Coq Require Import String.\nFrom Verif Require Import Lib.HandlerFacts.\nLocal Open Scope string_scope.\n\n"
     out += "Definition translator_ok : bool := true.\n\n"
+    # how a command line becomes text (C03: credentials are compared AFTER this step): the decode expression of parse_command
+    pc = methods.get("parse_command")
+    decodes = []
+    if pc is not None:
+        for n in ast.walk(pc):
+            if isinstance(n, ast.Assign) and any(isinstance(c, ast.Call) and isinstance(c.func, ast.Attribute) and c.func.attr == "decode" for c in ast.walk(n.value)):
+                decodes.append(" ".join(ast.unparse(n.value).split()))
+    out += f"Definition parse_command_decode : list string := {coq_list(S(d) for d in decodes)}.\n\n"
     out += "Definition programs : list (string * hprog) := [\n  " + ";\n  ".join(entries) + "\n].\n"
     return out
